@@ -168,13 +168,14 @@ void vd_audio_make(vh_rng *r, int lang, int kind, long max_samples, vd_audio *ou
 void vd_audio_free(vd_audio *a) { free(a->s); a->s = NULL; a->n = 0; }
 
 /* ================= decoders ================= */
+const char *vd_loglevel = "FATAL";
 void vd_cfg_default(vd_cfg *c, int lang) { memset(c, 0, sizeof(*c)); c->lang = lang; c->samprate = 16000; c->cmn = "live"; c->compallsen = 0; c->frate = 100; c->cionly = 0; c->ds = 1; }
 /* Neither bundled model has skip transitions, but the library supports the Bakis topology (and the statement of C02 speaks of the model's
  * transition matrices): a copy of the model's file with skip arcs 0->2 and 1->exit at half the weight of the regular arcs, valid header and
  * checksum.  The loader re-normalises the rows. */
-static const char *vd_skip_tmat(int lang)
+static const char *vd_skip_tmat(int lang, int mode)
 {
-    static char path[2][600]; size_t n = 0; unsigned char *d; char *e; uint32_t nt, ns, nd, cnt, sum = 0, v; size_t off, k; float *f;
+    static char path2[3][2][600]; char (*path)[600] = path2[mode]; size_t n = 0; unsigned char *d; char *e; uint32_t nt, ns, nd, cnt, sum = 0, v; size_t off, k; float *f;
     if (path[lang][0]) return path[lang];
     d = (unsigned char *)vh_read_file(vh_path("%s/model/%s/transition_matrices", vh_repo, lang_dir[lang]), &n);
     if (!d) return NULL;
@@ -183,10 +184,16 @@ static const char *vd_skip_tmat(int lang)
     memcpy(&nt, d + off, 4); memcpy(&ns, d + off + 4, 4); memcpy(&nd, d + off + 8, 4); memcpy(&cnt, d + off + 12, 4);
     if (ns != 3 || nd != 4 || cnt != nt * ns * nd || off + 16 + (size_t)cnt * 4 + 4 > n) { free(d); return NULL; }
     f = (float *)(d + off + 16);
-    for (k = 0; k < nt; ++k) { float *m = f + k * 12; m[0 * 4 + 2] = 0.5f * m[0 * 4 + 1]; m[1 * 4 + 3] = 0.5f * m[1 * 4 + 2]; }
+    /* mode 1: every matrix gets both skip arcs.  mode 2: the topology differs from matrix to matrix (none / both / only 0->2 / only
+     * 1->exit, with different weights), and matrix 0 keeps the plain left-to-right shape: nothing may be decided from one matrix for all */
+    for (k = 0; k < nt; ++k) {
+        float *m = f + k * 12; unsigned sel = mode == 1 ? 1 : (k == 0 ? 0 : (unsigned)((k * 2654435761u) >> 13) & 3); float wgt = mode == 1 ? 0.5f : 0.25f + 0.25f * (float)(k % 4);
+        if (sel == 1 || sel == 2) m[0 * 4 + 2] = wgt * m[0 * 4 + 1];
+        if (sel == 1 || sel == 3) m[1 * 4 + 3] = wgt * m[1 * 4 + 2];
+    }
     for (k = 0; k < 4 + (size_t)cnt; ++k) { memcpy(&v, d + off + 4 * k, 4); sum = ((sum << 20) | (sum >> 12)) + v; }
     memcpy(d + off + 16 + (size_t)cnt * 4, &sum, 4);
-    snprintf(path[lang], sizeof(path[lang]), "%s/tmat-skip-%s", vh_tmpdir(), lang_dir[lang]);
+    snprintf(path[lang], sizeof(path[lang]), "%s/tmat-skip%d-%s", vh_tmpdir(), mode, lang_dir[lang]);
     vh_write_file(path[lang], d, n); free(d);
     return path[lang];
 }
@@ -194,7 +201,7 @@ config_t *vd_make_config(const vd_cfg *c)
 {
     config_t *cf = config_init(NULL);
     config_set_str(cf, "hmm", vh_path("%s/model/%s", vh_repo, lang_dir[c->lang]));
-    config_set_str(cf, "loglevel", "FATAL");
+    config_set_str(cf, "loglevel", vd_loglevel);
     config_set_int(cf, "samprate", c->samprate);
     if (c->cmn) {
         /* the model's feat_params.json is parsed AFTER the user's settings and overrides them, so the only way
@@ -213,7 +220,7 @@ config_t *vd_make_config(const vd_cfg *c)
     if (c->frate != 100) config_set_int(cf, "frate", c->frate);
     if (c->cionly) config_set_bool(cf, "cionly", 1);
     if (c->ds > 1) config_set_int(cf, "ds", c->ds);
-    if (c->skip_tmat) { const char *tp = vd_skip_tmat(c->lang); if (tp) config_set_str(cf, "tmat", tp); }
+    if (c->skip_tmat) { const char *tp = vd_skip_tmat(c->lang, c->skip_tmat == 2 ? 2 : 1); if (tp) config_set_str(cf, "tmat", tp); }
     if (c->warp_type) config_set_str(cf, "warp_type", c->warp_type);
     if (c->warp_params) config_set_str(cf, "warp_params", c->warp_params);
     return cf;
@@ -329,6 +336,27 @@ static const char *related_word(vh_rng *r, int lang, const char *w)
     }
     return pick;
 }
+/* a lexicon word whose pronunciation ends like that of w (same last two phones if there is one, else same last phone) */
+static const char *rhyme_word(vh_rng *r, int lang, const char *w, const char **avoid, int navoid)
+{
+    const vd_lex *lx = vd_lexicon(lang); int wi = vd_lex_find(lx, w), i, seen2 = 0, seen1 = 0, q; const char *pick2 = NULL, *pick1 = NULL, *wp, *l1, *l2 = NULL;
+    if (wi < 0) return NULL;
+    wp = lx->pron[wi]; l1 = strrchr(wp, ' '); if (!l1) return NULL;
+    { const char *e = l1; while (e > wp && e[-1] != ' ') --e; l2 = e; }    /* start of the last-but-one phone */
+    ++l1;
+    for (i = 0; i < lx->n; ++i) {
+        const char *c = lx->word[i], *cp = lx->pron[i], *k1 = strrchr(cp, ' '); size_t cl, pl; int bad = 0;
+        if (!k1 || strcmp(k1 + 1, l1)) continue;
+        cl = strlen(c);
+        if (cl > 24 || strchr(c, '(') || !word_ok_for_jsgf(c) || vd_is_filler_word(c) || !strcmp(c, w)) continue;
+        for (q = 0; q < navoid; ++q) if (avoid[q] && !strcmp(avoid[q], c)) bad = 1;
+        if (bad) continue;
+        pl = strlen(cp);
+        if (pl >= strlen(l2) && !strcmp(cp + pl - strlen(l2), l2) && (pl == strlen(l2) || cp[pl - strlen(l2) - 1] == ' ')) { if (vh_below(r, (uint32_t)++seen2) == 0) pick2 = c; }
+        else if (vh_below(r, (uint32_t)++seen1) == 0) pick1 = c;
+    }
+    return (pick2 && (!pick1 || vh_chance(r, 0.7))) ? pick2 : pick1;
+}
 /* choose nw distinct base words */
 static int pick_vocab(vh_rng *r, int lang, int nw, int with_transcript, const char **out)
 {
@@ -432,6 +460,42 @@ void vd_gram_random(vh_rng *r, int lang, int kind, double transcript_bias, vd_gr
         vh_sb_printf(&g->text, ";\n");
         g->truth.final = st; g->truth.n_state = st + 1;
         snprintf(g->desc, sizeof(g->desc), "JSGF slot grammar, %d slots%s", ns, with_tr ? " (transcript-based)" : "");
+    } else if (kind == VG_FSG_TEXT && vh_chance(r, 0.18)) {
+        /* join grammar: several two-word branches A_i B_i meet in one state, and the B_i all end in the same phone (rhymes, homophones),
+         * so that in one frame several different arcs enter the same state with the same phonetic context; a branch word is a sentence
+         * only after its own first word.  Arcs are written in random order. */
+        int nb = vh_range(r, 2, 4), ntail, b, na = 0, J, fin, k; const char *A[4], *B[4], *T[2], *used[12]; int nu = 0;
+        struct { int from, to; const char *w; double p; } arc[16], tmp;
+        pool_init(lang);
+        if (with_tr) { A[0] = tr[0]; B[0] = tr[1]; T[0] = tr[2]; T[1] = tr[3]; ntail = 2; }
+        else {
+            int guard = 0; A[0] = valid_pool[lang][vh_below(r, (uint32_t)nvalid[lang])];
+            do B[0] = vh_chance(r, 0.6) ? valid_pool[lang][vh_below(r, (uint32_t)nvalid[lang])] : random_lex_word(r, lang); while (++guard < 30 && (vd_lex_find(vd_lexicon(lang), B[0]) < 0 || vd_lex_nphones(vd_lexicon(lang)->pron[vd_lex_find(vd_lexicon(lang), B[0])]) < 2 || !strcmp(B[0], A[0])));
+            ntail = vh_range(r, 0, 2); for (k = 0; k < ntail; ++k) T[k] = valid_pool[lang][vh_below(r, (uint32_t)nvalid[lang])];
+        }
+        used[nu++] = A[0]; used[nu++] = B[0]; for (k = 0; k < ntail; ++k) used[nu++] = T[k];
+        for (b = 1; b < nb; ++b) {
+            int guard = 0, dup;
+            B[b] = rhyme_word(r, lang, B[0], used, nu);
+            if (!B[b]) { nb = b; break; }
+            used[nu++] = B[b];
+            do { A[b] = vh_chance(r, 0.7) ? valid_pool[lang][vh_below(r, (uint32_t)nvalid[lang])] : random_lex_word(r, lang); dup = 0; for (k = 0; k < nu; ++k) if (!strcmp(used[k], A[b])) dup = 1; } while (dup && ++guard < 40);
+            if (dup) { nb = b; break; }
+            used[nu++] = A[b];
+        }
+        J = nb + 1; fin = J + ntail;
+        for (b = 0; b < nb; ++b) {
+            arc[na].from = 0; arc[na].to = 1 + b; arc[na].w = A[b]; arc[na].p = VH_PICK(r, ((double[]){ 1.0, 0.5, 0.25, 0.1 })); ++na;
+            arc[na].from = 1 + b; arc[na].to = J; arc[na].w = B[b]; arc[na].p = VH_PICK(r, ((double[]){ 1.0, 0.5, 0.1 })); ++na;
+        }
+        for (k = 0; k < ntail; ++k) { arc[na].from = J + k; arc[na].to = J + k + 1; arc[na].w = T[k]; arc[na].p = 1.0; ++na; }
+        for (k = na - 1; k > 0; --k) { int j2 = (int)vh_below(r, (uint32_t)(k + 1)); tmp = arc[k]; arc[k] = arc[j2]; arc[j2] = tmp; }
+        vfsa_init(&g->truth, fin + 1, 0, fin);
+        vh_sb_printf(&g->text, "FSG_BEGIN join\nNUM_STATES %d\nSTART_STATE 0\nFINAL_STATE %d\n", fin + 1, fin);
+        for (k = 0; k < na; ++k) { vfsa_add(&g->truth, arc[k].from, arc[k].to, vfsa_label(&g->truth, arc[k].w), 0); vh_sb_printf(&g->text, "TRANSITION %d %d %g %s\n", arc[k].from, arc[k].to, arc[k].p, arc[k].w); }
+        vh_sb_printf(&g->text, "FSG_END\n");
+        vh_count("fsg_texts_joining_rhyming_branches", 1);
+        snprintf(g->desc, sizeof(g->desc), "fsg-text: %d two-word branches whose second words rhyme (%s ...) meet in one state, %d tail words%s", nb, B[0], ntail, with_tr ? " (contains the transcript)" : "");
     } else {
         /* random automaton, printed as FSG text or as a right-linear JSGF grammar */
         int n_state = vh_range(r, 2, 8), start = 0, final, narcs, k;
